@@ -49,3 +49,12 @@ def vfRec(self, tag="", **kwa):
     if ctx == "benter":
         return True
     return None
+
+
+@doing.doify('VfAddField', parametric=True)
+def vfAddField(self, path="", name="", val=0, **kwa):
+    """a deed that writes one field of a share by name at run time; when the share does not have the field yet
+    this *adds* it (FloScript's own put/set/copy create their destination fields at resolve time already)"""
+    sh = self.store.fetchShare(path)
+    sh.update([(name, val)])
+    return None
